@@ -267,6 +267,20 @@ path:
     regexp: ^/a(.*)
     replace: /b$1
 decompress: gzip
+`, `
+name: f1
+kind: RequestAdaptor
+path:
+  trimPrefix: /api
+header:
+  add:
+    X-Test: a
+`, `
+name: f1
+kind: RequestAdaptor
+method: PUT
+path:
+  replace: /r
 `},
 	"ResponseAdaptor": {`
 name: f1
